@@ -48,6 +48,12 @@ func gen(t *rapid.T) Case {
 	}
 	c.Archive = tarmodel.Gen(t, tarmodel.GenOpts{MaxEntries: 12, ChunkSize: cs, Hardlinks: true, Spellings: true, RootEntry: true})
 	c.Archive.Entries = append(c.Archive.Entries, tarmodel.Entry{Name: "zz-data", Type: "reg", Mode: 0o644, MTime: 1600000000, Size: rapid.SampledFrom([]int{1, cs + 1, 3 * cs, 20 * cs, 9*cs + 1}).Draw(t, "zzsize"), Seed: 99})
+	if rapid.IntRange(0, 3).Draw(t, "nestedtocname") == 0 {
+		// only the root entry of that name is the TOC; below a directory it is an ordinary file
+		last := c.Archive.Entries[len(c.Archive.Entries)-1] // (zz-data stays the last entry)
+		c.Archive.Entries[len(c.Archive.Entries)-1] = tarmodel.Entry{Name: rapid.SampledFrom([]string{"a/c/stargz.index.json", "var/stargz.index.json"}).Draw(t, "tocname"), Type: "reg", Mode: 0o644, MTime: 1600000000, Size: cs + 1, Seed: 77}
+		c.Archive.Entries = append(c.Archive.Entries, last)
+	}
 	kind := rapid.SampledFrom([]string{"prioritized", "prioritized", "prioritized", "none", "legacy"}).Draw(t, "layerkind")
 	var names []string
 	for _, e := range c.Archive.Entries {
